@@ -186,7 +186,11 @@ def cvc5_second_opinion(ctx, cond, z3_holds, hname, n, out):
     os.makedirs(d, exist_ok=True)
     path = os.path.join(d, "%s-%s-%d-%d.smt2" % (PID, hname.replace("/", "_").replace("=", ""), n, os.getpid()))
     with open(path, "w") as f:
-        f.write("(set-logic ALL)\n" + s.to_smt2().replace("(set-logic", "; (set-logic"))
+        txt = s.to_smt2().replace("(set-logic", "; (set-logic")
+        # z3 prints its internal "divisor known to be non-zero" variants; they equal the standard operators there
+        for op in ("bvudiv", "bvurem", "bvsdiv", "bvsrem", "bvsmod"):
+            txt = txt.replace(op + "_i", op)
+        f.write("(set-logic ALL)\n" + txt)
     try:
         p = subprocess.run(["cvc5", "--lang", "smt2", "--tlimit=20000", path], capture_output=True, text=True, timeout=40)
     except subprocess.TimeoutExpired:
